@@ -21,6 +21,9 @@ import (
 //	pubclose   QoS 1 PUBLISH immediately followed by dropping the connection
 //	idle       virtual time advances by IdleMs
 //	raw        Bytes are written as they are
+//	pub2hold   client C publishes at QoS 2 with packet identifier PID and keeps the PUBREL back
+//	pub2rel    client C releases the exchange PID it holds (PUBREL): only now is the message forwarded
+//	restartnode a failed node comes back under the same node id (empty state), see Cluster.RestartNode
 //	failnode   node Node fails; survivors are notified
 //	sweep      every node's in-flight table is swept with now = far future (all pending entries expire)
 //	gossip1    (manual gossip mode) deliver pending broadcast number C to node Node
@@ -41,6 +44,7 @@ type Step struct {
 	Retain    bool     `json:"retain,omitempty"`
 	IdleMs    int64    `json:"idle_ms,omitempty"`
 	Bytes     []byte   `json:"bytes,omitempty"`
+	PID       uint16   `json:"pid,omitempty"` // pub2hold / pub2rel: the client-chosen packet identifier
 }
 
 type Will struct {
@@ -75,6 +79,8 @@ type Sess struct {
 	// Displaced: a newer session took over the client id; this one may still be served
 	// until its next keep-alive exchange, so deliveries to it are not judged.
 	Displaced bool
+	// held: the client's own QoS 2 publishes waiting for its PUBREL (packet id -> message)
+	held map[uint16]Step
 }
 
 // World = Cluster + the reference model of who must have received what.
@@ -337,6 +343,72 @@ func (w *World) Apply(st Step) (problem string, inconclusive bool) {
 		if st.PQoS == 2 && !s.K.Has(PUBCOMP, id) {
 			return fmt.Sprintf("client %d: no PUBCOMP for %q", st.C, st.Topic), false
 		}
+	case "pub2hold":
+		if s == nil || !s.Alive || s.Node.Down || s.Displaced || st.PID == 0 {
+			return "", false
+		}
+		if _, busy := s.held[st.PID]; busy {
+			return "", false // the client does not reuse an identifier it still holds
+		}
+		if s.K.HoldRel == nil {
+			s.K.HoldRel = map[uint16]bool{}
+		}
+		if s.held == nil {
+			s.held = map[uint16]Step{}
+		}
+		s.K.HoldRel[st.PID] = true
+		before := 0
+		for _, p := range s.K.Rx {
+			if p.Type == PUBREC && p.ID == st.PID {
+				before++
+			}
+		}
+		w.touch(s)
+		s.K.Send(EncPublish(st.Topic, []byte(st.Payload), 2, st.Retain, false, st.PID))
+		if !settle() {
+			return
+		}
+		after := 0
+		for _, p := range s.K.Rx {
+			if p.Type == PUBREC && p.ID == st.PID {
+				after++
+			}
+		}
+		if after != before+1 {
+			return fmt.Sprintf("client %d: QoS 2 PUBLISH with identifier %d got %d PUBREC, want 1 (connection closed by broker: %v)", st.C, st.PID, after-before, s.K.Conn.State().BrokerClosed), false
+		}
+		s.held[st.PID] = st
+	case "pub2rel":
+		if s == nil || !s.Alive || s.Node.Down || s.Displaced {
+			return "", false
+		}
+		h, ok := s.held[st.PID]
+		if !ok {
+			return "", false
+		}
+		delete(s.held, st.PID)
+		delete(s.K.HoldRel, st.PID)
+		before := 0
+		for _, p := range s.K.Rx {
+			if p.Type == PUBCOMP && p.ID == st.PID {
+				before++
+			}
+		}
+		w.touch(s)
+		w.modelPublish(w.mp(s), h.Topic, h.Payload, h.Retain, s.Node)
+		s.K.Send(EncAck(PUBREL, st.PID))
+		if !settle() {
+			return
+		}
+		after := 0
+		for _, p := range s.K.Rx {
+			if p.Type == PUBCOMP && p.ID == st.PID {
+				after++
+			}
+		}
+		if after != before+1 {
+			return fmt.Sprintf("client %d: PUBREL for its held exchange %d got %d PUBCOMP, want 1", st.C, st.PID, after-before), false
+		}
 	case "ping":
 		if s == nil || !s.Alive || s.Node.Down {
 			return "", false
@@ -512,6 +584,13 @@ func (w *World) Apply(st Step) (problem string, inconclusive bool) {
 		for _, n := range w.Cl.Nodes {
 			if !n.Down {
 				n.Acks.SweepAll()
+			}
+		}
+		for _, x := range w.S {
+			// the broker gives up on exchanges whose PUBREL did not come in time
+			x.held = nil
+			if x.K.HoldRel != nil {
+				x.K.HoldRel = map[uint16]bool{}
 			}
 		}
 		if !settle() {
